@@ -12,6 +12,7 @@ Modular::*, Epoch::*) over a reduced product of
 Generic parameters are eliminated by exhaustive partition (alignment of T; residues of the
 epoch). Anything the domain cannot decide is `Unknown` -> analysis error, never a pass.
 This is abstract interpretation of the source: no circ code is compiled to run."""
+import re
 from .facts import AnalysisError
 from .mir import Callee
 from .sym import norm
@@ -642,6 +643,9 @@ class Interp:
             return binop("Rem", x, y)
         if nt.startswith("<ebr_impl::pointers::Tagged<T> as std::convert::From"):
             return {"__adt": "ebr_impl::pointers::Tagged", "ptr": args[0]}
+        m = re.search(r"<impl std::convert::From<(\w+)> for (\w+)>::from$", tg)
+        if m and int_type(m.group(1))[0] and int_type(m.group(2))[0]:
+            return cast(args[0], "IntToInt", m.group(2))       # u64::from(x: u32): the lossless widening `as`
         if nt == "std::convert::From::from" or nt == "std::convert::Into::into":
             return args[0]
         if nt == "std::ptr::const_ptr::cast_mut":
